@@ -403,6 +403,33 @@ class TreeGen:
             pairs.append((list(path), self.value(depth)))
         return pairs
 
+    @staticmethod
+    def group_pairs(pairs):
+        """reorder (path, value) pairs so that pairs sharing a dotted prefix are adjacent (recursively)"""
+        order, groups = [], {}
+        for p, v in pairs:
+            k = p[0]
+            if k not in groups:
+                groups[k] = []
+                order.append(k)
+            groups[k].append((p, v))
+        out = []
+        for k in order:
+            g = groups[k]
+            singles = [(p, v) for p, v in g if len(p) == 1]
+            deeper = [(p[1:], v) for p, v in g if len(p) > 1]
+            out.extend(singles)
+            for p, v in TreeGen.group_pairs(deeper) if deeper else []:
+                out.append(([k] + p, v))
+        return out
+
+    def group_value(self, v):
+        if v[0] == "a":
+            return ("a", [self.group_value(e) for e in v[1]])
+        if v[0] == "t":
+            return ("t", self.group_pairs([(p, self.group_value(e)) for p, e in v[1]]))
+        return v
+
     # a random tree: dict-like ordered [(key, node)], node = ('v', value) | ('T', tree) | ('A', [tree...])
     def tree(self, depth=0, allow_aot=True):
         r = self.rng
@@ -563,9 +590,13 @@ class Renderer:
     otherwise every lexical choice is random.  `markers` puts a distinct comment/whitespace
     marker in every decor slot so that misplacement shows (C03)."""
 
-    def __init__(self, rng, plain=False, crlf_p=0.1, comment_p=0.25, ws_p=0.3):
+    def __init__(self, rng, plain=False, crlf_p=0.1, comment_p=0.25, ws_p=0.3, consistent=False):
         self.rng = rng
         self.plain = plain
+        # consistent: every key is always spelled the same way and key paths carry no blanks
+        # around dots / inside header brackets (the condition under which C03 promises exactness)
+        self.consistent = consistent
+        self.key_memo = {}
         self.crlf_p = crlf_p
         self.comment_p = comment_p
         self.ws_p = ws_p
@@ -625,6 +656,13 @@ class Renderer:
 
     # -- keys
     def key(self, k):
+        if self.consistent:
+            if k not in self.key_memo:
+                self.key_memo[k] = self._key(k)
+            return self.key_memo[k]
+        return self._key(k)
+
+    def _key(self, k):
         r = self.rng
         bare_ok = len(k) > 0 and all(c in BARE for c in k)
         lit_ok = b"'" not in k and all((c >= 0x20 and c != 0x7f) or c == 9 for c in k)
@@ -645,8 +683,8 @@ class Renderer:
     def key_path(self, path, lead=b"", trail=b""):
         parts = []
         for i, k in enumerate(path):
-            pre = self.ws() if i > 0 else lead
-            suf = self.ws() if i + 1 < len(path) else trail
+            pre = (b"" if self.consistent else self.ws()) if i > 0 else lead
+            suf = (b"" if self.consistent else self.ws()) if i + 1 < len(path) else trail
             parts.append(pre + self.key(k) + suf)
         return b".".join(parts)
 
@@ -848,6 +886,8 @@ class Renderer:
         o, c = (b"[", b"]") if st[0] == "hdr" else (b"[[", b"]]")
         if self.plain:
             return o + b".".join(self.key(k) for k in st[1]) + c
+        if self.consistent:
+            return self.ws() + o + self.key_path(st[1]) + c + self.opt_comment() + self.ws()
         return self.ws() + o + self.key_path(st[1], self.ws(), self.ws()) + c + self.opt_comment() + self.ws()
 
     def document(self, stmts, final_newline=None, bom=None):
